@@ -447,9 +447,13 @@ def gen_box(rs, wide=False):
 
 
 def gen_title(rs):
-    k = int(rs.randint(0, 6))
+    k = int(rs.randint(0, 8))
     if k == 0:
         return None
+    if k == 6:
+        return ""                          # empty title: the title line is a bare newline
+    if k == 7:
+        return "\n"                        # the setter strips it: same as the empty title
     n = int(rs.randint(1, 40))
     chars = "".join(chr(c) for c in range(32, 127))
     t = "".join(chars[int(rs.randint(0, len(chars)))] for _ in range(n))
